@@ -9,6 +9,6 @@ require (
 	google.golang.org/protobuf v1.36.11
 )
 
-require google.golang.org/genproto/googleapis/api v0.0.0-20260223185530-2f722ef697dc // indirect
+require google.golang.org/genproto/googleapis/api v0.0.0-20260223185530-2f722ef697dc
 
 replace connectrpc.com/vanguard => /repo
